@@ -90,7 +90,11 @@ def classify_trailing_ws(case, detail):
         return False
     exp, got = detail["expected"], detail["got"]
     if [k for k, _ in exp] != [k for k, _ in got]:
-        return False
+        # keep_order=True may print the keys in another order; the key *set* must still agree
+        if not case.get("keep_order") or sorted(k for k, _ in exp) != sorted(k for k, _ in got) or len(set(k for k, _ in exp)) != len(exp):
+            return False
+        gd = dict((k, v) for k, v in got)
+        got = [[k, gd[k]] for k, _ in exp]
     explained = False
     for (k, ev), (_, gv) in zip(exp, got):
         if ev == gv:
@@ -136,7 +140,7 @@ def roundtrip(ctx, case):
     attrs = {k: list(v) for k, v in m}
     try:
         f = Feature(seqid="chr1", source="s", featuretype="gene", start=10, end=20, score=".", strand="+", frame=".",
-                    attributes=attrs, extra=list(extra), dialect=dict(d))
+                    attributes=attrs, extra=list(extra), dialect=dict(d), keep_order=bool(case.get("keep_order")))
         line = str(f)
     except Exception as ex:
         ctx.violation(case, {"why": "printing raised %r" % (ex,)})
@@ -156,7 +160,11 @@ def roundtrip(ctx, case):
         ctx.violation(case, {"why": "re-parsed columns differ", "printed": line, "got": cols})
         return
     got = [[k, list(g.attributes[k])] for k in g.attributes.keys()]
-    if got != m:
+    same = got == m
+    if not same and case.get("keep_order"):
+        # keep_order=True prints the keys in the dialect's order: the mapping is the same when keys and value lists agree
+        same = len(got) == len(m) and dict((k, v) for k, v in got) == dict((k, v) for k, v in m)
+    if not same:
         ctx.violation(case, {"why": "re-parsed mapping differs", "printed": line, "got": got, "expected": m})
         contracts.drain()
         return
@@ -205,8 +213,15 @@ def run(ctx):
         d = rng.choice(ds)
         gtf = d["fmt"] == "gtf"
         m = mapping(rng, gtf)
+        if rng.random() < 0.03:
+            # a long value: hundreds of reserved characters in one value
+            long_chars = list("\t\n\r%;=&,") if not gtf else list("%=&")
+            m[rng.randrange(len(m))][1][0] = "".join(rng.choice(long_chars + ["a"]) for _ in range(rng.choice([255, 256, 257, 300, 700])))
         case = {"kind": "roundtrip", "dialect": d, "mapping": m,
-                "extra": ["x y"] if rng.random() < 0.1 else []}
+                "extra": ["x y"] if rng.random() < 0.1 else [], "keep_order": rng.random() < 0.4}
+        if case["keep_order"] and rng.random() < 0.5:
+            d = dict(d, order=[k for k, _ in m][::2])
+            case["dialect"] = d
         roundtrip(ctx, case)
         text = "".join("".join(v) for _, v in m)
         nontriv = any(c in R.RESERVED_LIST or c.isspace() or c == '"' for c in text)
